@@ -1,9 +1,11 @@
 #![allow(non_upper_case_globals)]
 
+#[cfg(target_endian = "little")]
 use core::ptr;
 use digest::generic_array::typenum::U64;
 use digest::generic_array::GenericArray;
 use simd::{vec128_storage, AndNot, Machine, Swap64, VZip, Vec2};
+#[cfg(target_endian = "little")]
 use zerocopy::transmute;
 
 const E8_BITSLICE_ROUNDCONSTANT: [[u8; 32]; 42] = [
@@ -133,15 +135,51 @@ fn l<M: Machine>(mut y: X8<M>) -> X8<M> {
     y
 }
 
+#[cfg(target_endian = "little")]
 union X2Bytes<M: Machine> {
     x2: M::u128x2,
     bytes: [u8; 32],
 }
 
+/// 16 bytes as the storage of a 128-bit vector: like a vector load, the bytes are the
+/// little-endian image of the value on every target.
+#[cfg(target_endian = "big")]
+#[inline(always)]
+fn le128(b: &[u8]) -> vec128_storage {
+    let w = |i: usize| u32::from_le_bytes([b[4 * i], b[4 * i + 1], b[4 * i + 2], b[4 * i + 3]]);
+    [w(0), w(1), w(2), w(3)].into()
+}
+
+#[cfg(target_endian = "big")]
+#[inline(always)]
+fn load128<M: Machine>(mach: M, data: *const u8, i: usize) -> M::u128x1 {
+    let b = unsafe { core::slice::from_raw_parts(data.add(16 * i), 16) };
+    mach.unpack(le128(b))
+}
+
+#[cfg(target_endian = "little")]
+#[inline(always)]
+fn load128<M: Machine>(_mach: M, data: *const u8, i: usize) -> M::u128x1 {
+    #[allow(clippy::cast_ptr_alignment)]
+    unsafe {
+        ptr::read_unaligned((data as *const M::u128x1).add(i))
+    }
+}
+
+#[cfg(target_endian = "big")]
+#[inline(always)]
+fn round_constant<M: Machine>(mach: M, rc: &[u8; 32]) -> M::u128x2 {
+    mach.unpack(simd::vec256_storage::new128([le128(&rc[..16]), le128(&rc[16..])]))
+}
+
+#[cfg(target_endian = "little")]
+#[inline(always)]
+fn round_constant<M: Machine>(_mach: M, rc: &[u8; 32]) -> M::u128x2 {
+    unsafe { X2Bytes::<M> { bytes: *rc }.x2 }
+}
+
 #[inline(always)]
 pub fn f8_impl<M: Machine>(mach: M, state: &mut [vec128_storage; 8], data: *const u8) {
-    #[allow(clippy::cast_ptr_alignment)]
-    let data = data as *const M::u128x1;
     let mut y = X8::<M>(
         mach.unpack(state[0]),
         mach.unpack(state[1]),
@@ -152,15 +190,13 @@ pub fn f8_impl<M: Machine>(mach: M, state: &mut [vec128_storage; 8], data: *cons
         mach.unpack(state[6]),
         mach.unpack(state[7]),
     );
-    unsafe {
-        y.0 ^= ptr::read_unaligned(data);
-        y.1 ^= ptr::read_unaligned(data.offset(1));
-        y.2 ^= ptr::read_unaligned(data.offset(2));
-        y.3 ^= ptr::read_unaligned(data.offset(3));
-    }
+    y.0 ^= load128(mach, data, 0);
+    y.1 ^= load128(mach, data, 1);
+    y.2 ^= load128(mach, data, 2);
+    y.3 ^= load128(mach, data, 3);
     for rc in E8_BITSLICE_ROUNDCONSTANT.chunks_exact(7) {
         unroll7!(j, {
-            y = ss(y, unsafe { X2Bytes::<M> { bytes: rc[j] }.x2 });
+            y = ss(y, round_constant(mach, &rc[j]));
             y = l(y);
             let f = match j {
                 0 => M::u128x1::swap1,
@@ -175,12 +211,10 @@ pub fn f8_impl<M: Machine>(mach: M, state: &mut [vec128_storage; 8], data: *cons
             y = X8(y.0, f(y.1), y.2, f(y.3), y.4, f(y.5), y.6, f(y.7));
         });
     }
-    unsafe {
-        y.4 ^= ptr::read_unaligned(data);
-        y.5 ^= ptr::read_unaligned(data.offset(1));
-        y.6 ^= ptr::read_unaligned(data.offset(2));
-        y.7 ^= ptr::read_unaligned(data.offset(3));
-    }
+    y.4 ^= load128(mach, data, 0);
+    y.5 ^= load128(mach, data, 1);
+    y.6 ^= load128(mach, data, 2);
+    y.7 ^= load128(mach, data, 3);
     *state = [
         y.0.into(),
         y.1.into(),
@@ -206,17 +240,40 @@ pub struct Compressor {
 
 impl Compressor {
     #[inline]
+    #[cfg(target_endian = "little")]
     pub fn new(bytes: [u8; 128]) -> Self {
         Compressor {
             cv: transmute!(bytes),
         }
     }
     #[inline]
+    #[cfg(target_endian = "big")]
+    pub fn new(bytes: [u8; 128]) -> Self {
+        let mut cv = [vec128_storage::default(); 8];
+        for (v, b) in cv.iter_mut().zip(bytes.chunks_exact(16)) {
+            *v = le128(b);
+        }
+        Compressor { cv }
+    }
+    #[inline]
     pub fn input(&mut self, data: &GenericArray<u8, U64>) {
         f8(&mut self.cv, data.as_ptr())
     }
     #[inline]
+    #[cfg(target_endian = "little")]
     pub fn finalize(self) -> [u8; 128] {
         transmute!(self.cv)
+    }
+    #[inline]
+    #[cfg(target_endian = "big")]
+    pub fn finalize(self) -> [u8; 128] {
+        let mut out = [0u8; 128];
+        for (v, o) in self.cv.iter().zip(out.chunks_exact_mut(16)) {
+            let w: [u32; 4] = (*v).into();
+            for (x, b) in w.iter().zip(o.chunks_exact_mut(4)) {
+                b.copy_from_slice(&x.to_le_bytes());
+            }
+        }
+        out
     }
 }
